@@ -1054,6 +1054,34 @@ impl<'a> Run<'a> {
                 }
                 Ok(false)
             }
+            Op::FreeTree {
+                reserved,
+                tree,
+                class,
+                slot,
+            } => {
+                let class = self.resolve_class(*class);
+                let slot = self.resolve_slot(class, slot);
+                let trees = self.model.trees();
+                if trees == 0 {
+                    return Ok(false);
+                }
+                let words = tree_words(&self.inst);
+                let t = match (*reserved, words.iter().position(|w| w.2)) {
+                    (true, Some(t)) => {
+                        self.feat("free_reserved_tree");
+                        t
+                    }
+                    _ => pick(*tree, trees),
+                };
+                let held: Vec<Block> = self.model.held.iter().filter(|b| b.tree() == t).copied().collect();
+                for b in held {
+                    if self.model.held.contains(&b) {
+                        self.do_put(b, class, slot)?;
+                    }
+                }
+                Ok(false)
+            }
             Op::DrainCheck {
                 class,
                 slot,
